@@ -14,7 +14,7 @@ LEVEL_TEXT = ('Bounded symbolic verification: every decoder entry point (UPDATE,
               'must return a result object on every path.')
 LEVEL_NOTE = ('Input length bounded (<= 5 octets quick, <= 8 thorough for leaf decoders; TLV bodies <= 16): inputs up to 4096 octets are '
               'outside the bound; the per-loop progress (every iteration consumes >= 1 octet) is what is decided. Error-message text cut.')
-LEVEL_ADDED = 'Also: sub-TLV carrying BGP-LS TLVs with 6..60 sibling sub-TLVs / chains nested that deep under a fuel linear in the number of TLVs. OPEN capability values made of a repeated 4-octet tuple.'
+LEVEL_ADDED = 'Also: sub-TLV carrying BGP-LS TLVs with 6..60 sibling sub-TLVs / chains nested that deep under a fuel linear in the number of TLVs. OPEN capability values made of a repeated 4-octet tuple. OPEN with a symbolic optional-parameter header (type, length).'
 TECHNIQUE = 'symbolic execution of each decoder on all-symbolic octets with loop-fuel unwinding assertions (CrossHair+z3), CPU-limited replay of non-termination'
 EXPLANATION = 'C11: all-symbolic short inputs per decoder under loop fuel.'
 BOUNDS = 'leaf decoders: every length 0..5 (quick) / 0..7 (thorough, less for the decoders whose path count explodes: see tmax); 57 BGP-LS TLV types x sub-length 0..16; Update.parse structured bodies'
@@ -122,7 +122,7 @@ def _bytes(vals, n):
 def ob_leaf(b0: int, b1: int, b2: int, b3: int, b4: int, b5: int, b6: int, b7: int) -> bool:
     """decoder on all-symbolic octets: returns or raises an ordinary exception - never spins"""
     n = P['n']
-    data = bytes(P.get('prefix', [])) + _bytes([b0, b1, b2, b3, b4, b5, b6, b7], n)
+    data = bytes(P.get('prefix', [])) + _bytes([b0, b1, b2, b3, b4, b5, b6, b7], n) + bytes(P.get('suffix', []))
     f = _dec(P['dec'])
     FUEL.reset(2 * len(data) + 8)
     try:
@@ -266,6 +266,11 @@ def obligations(tier, seed):
             pre = [4, 0xfc, 0, 0, 0xb4, 10, 0, 0, 6, 2 + 2 + len(val) + 1, 2, 2 + len(val) + 1, code, len(val) + 1] + val
             out.append(ob('C11/leaf/open/capability=%d/same-tuple-x%d' % (code, k), 'ob_leaf', {'dec': 'open', 'n': 1, 'prefix': pre},
                           cap=200 if quick else 600))
+    # OPEN whose optional-parameter header (type, length) is symbolic, alone and in front of a capabilities parameter
+    for tail in ([], [2, 2, 2, 0]):
+        pre = [4, 0xfc, 0, 0, 0xb4, 10, 0, 0, 6, 2 + len(tail)]
+        out.append(ob('C11/leaf/open/parameter-header/tail=%d' % len(tail), 'ob_leaf', {'dec': 'open', 'n': 2, 'prefix': pre, 'suffix': tail},
+                      cap=200 if quick else 600))
     # sub-TLV carrying TLVs: many siblings / deep chains (work must stay linear)
     for outer in (1106, 1162):
         for form in ('siblings', 'chain'):
